@@ -407,6 +407,11 @@ impl Property for C14 {
             if let Some((doc, obs)) = sync_obs {
                 lines.push(Line::oracle(format!("ssync 1 {doc}"), obs));
             }
+            // specification (C14): close reports whether the document is closed afterwards, i.e. whether
+            // the history of acknowledged opens and releases leaves it without a handle
+            if toks.get(2).copied() == Some("close") && out.starts_with("ok ") {
+                lines.push(Line::oracle(format!("sclose 1 {}", toks[3]), out.clone()));
+            }
             // specification (C16 / C14): dropping a document is refused exactly while another handle
             // holds it open (the drop itself releases one handle)
             if toks.get(2).copied() == Some("drop") {
